@@ -10,6 +10,7 @@ CONSTANTS
   Dev_NdKeyStr = FALSE
   Dev_NdValIndex = FALSE
   Dev_CsIndex = FALSE
+  Dev_SizeHint = FALSE
   Emit = FALSE
   Scen = {"deref", "links", "kids"}
 INVARIANTS PcOK Bounded RsrcDepth TotalInv
